@@ -465,8 +465,17 @@ fn gen_dir(rng: &mut Rng, r: &mut Report, store: &Path) -> DirSpec {
 		}
 		60..=64 => { files.remove(0); kind = "no-root"; hist_ok = false; }
 		65..=69 => { // a second root
-			let v = if rng.chance(1, 2) && n > 1 { names[rng.range(1, n - 1)].clone() } else { version_name(rng, 30, false) };
-			files.push(FileSpec { name: format!("{v}{TINY}"), content: files[0].content.clone() });
+			// the second root is another version, a fresh version, or — a third of the time — a SECOND FILE FOR THE ROOT'S OWN
+			// NODE (a version is identified by the part before `~`: `1.4.tiny` beside `1.4~server-0.4.tiny`, or two `1.4~…`
+			// files): still two roots, and with different contents so that "the last one wins" would show
+			let same_node = rng.chance(1, 3);
+			let v = if same_node {
+				let client = names[0].split('~').next().unwrap_or(&names[0]).to_owned();
+				let cand = if names[0].contains('~') && rng.chance(1, 2) { client.clone() } else { format!("{client}~server-{}.{}", rng.below(9), rng.below(9)) };
+				if cand == names[0] { format!("{client}~other") } else { cand }
+			} else if rng.chance(1, 2) && n > 1 { names[rng.range(1, n - 1)].clone() } else { version_name(rng, 30, false) };
+			let content = if same_node { let mut m2 = maps[0].clone(); tdiff::edit(rng, &mut m2, &mut |_| {}); root_text(&m2).or_else(|| plain_text(&m2)).unwrap_or_else(|| files[0].content.clone()) } else { files[0].content.clone() };
+			files.push(FileSpec { name: format!("{v}{TINY}"), content });
 			kind = "two-roots"; hist_ok = false;
 		}
 		70..=77 | 100..=103 => { // a cycle: back edge to an ancestor (reachable), a self loop, or a cycle off the root's component
@@ -743,6 +752,14 @@ fn through(spec: &DirSpec, scratch: &mut Scratch, rng: &mut Rng, r: &mut Report,
 				}
 				r.count("oracle:listing-order-identical");
 			} else { digests = Some((digest, listing.clone())); }
+		}
+		// ---- on EVERY directory (lookup-name collisions included; C05_resolve_err_iff): the number of .tiny files must be
+		// one and every .tinydiff name must have its `#`, whatever else the names do — two files for one node are two roots
+		if obs.is_some() && (refg.roots.len() != 1 || refg.bad_name) {
+			let why = if refg.roots.is_empty() { "no root" } else if refg.roots.len() > 1 { "two roots" } else { "a .tinydiff name without #" };
+			vio(r, format!("resolve succeeded on a malformed directory ({why}; the file names collide on a lookup name, which does not make it well-formed)"));
+			r.count("oracle:malformed-is-error-any-directory");
+			continue;
 		}
 		// ---- property oracle (well-formed directories)
 		if !wf { continue; }
